@@ -415,6 +415,10 @@ func (e *Env) binary(x *ast.BinaryExpr, t types.Type) Value {
 	switch x.Op {
 	case token.EQL, token.NEQ:
 		eq := e.equal(l, r, x.Pos())
+		if isFloatType(e.info().Types[x.X].Type) || isFloatType(e.info().Types[x.Y].Type) {
+			// IEEE equality is not the identity of the value (a NaN differs from itself)
+			eq = App("feq", SBool, e.box(l), e.box(r))
+		}
 		if x.Op == token.NEQ {
 			eq = Not(eq)
 		}
@@ -426,6 +430,9 @@ func (e *Env) binary(x *ast.BinaryExpr, t types.Type) Value {
 	if l.K != VInt || r.K != VInt {
 		switch x.Op {
 		case token.LSS, token.LEQ, token.GTR, token.GEQ:
+			if v, ok := e.orderCmp(x.Op, l, r, e.info().Types[x.X].Type); ok {
+				return Value{K: VBool, T: v, Typ: t}
+			}
 			return Value{K: VBool, T: e.fresh("cmp", SBool), Typ: t}
 		}
 		return e.unknown(t, "binop")
@@ -796,4 +803,48 @@ func (e *Env) unsafeStringCast(x *ast.StarExpr) (Value, bool) {
 		e.unsafeCasts = append(e.unsafeCasts, e.tmp(s.Ref))
 	}
 	return Value{K: VStr, Arr: e.tmp(Select(e.mem(), s.Ref)), Off: s.Off, Len: s.Len, Typ: rt}, true
+}
+
+func isFloatType(t types.Type) bool {
+	if t == nil {
+		return false
+	}
+	b, ok := t.Underlying().(*types.Basic)
+	return ok && b.Info()&(types.IsFloat|types.IsComplex) != 0
+}
+
+// orderCmp: the ordering of strings (a strict total order: exactly one of a < b, a == b, b < a) and of floats
+// (a strict partial order; two values that both equal themselves, i.e. are not NaN, are equal or ordered). The
+// relations are uninterpreted; these instances of their laws are assumed at each comparison.
+func (e *Env) orderCmp(op token.Token, l, r Value, t types.Type) (*Term, bool) {
+	switch {
+	case l.K == VStr && r.K == VStr:
+		lt := func(a, b Value) *Term { return App("strlt", SBool, a.Arr, a.Off, a.Len, b.Arr, b.Off, b.Len) }
+		eq := App("streq", SBool, l.Arr, l.Off, l.Len, r.Arr, r.Off, r.Len)
+		ab, ba := lt(l, r), lt(r, l)
+		e.assume(Or(eq, ab, ba))
+		e.assume(Not(And(ab, ba)))
+		e.assume(Not(And(eq, ab)))
+		e.assume(Not(And(eq, ba)))
+		switch op {
+		case token.LSS:
+			return ab, true
+		case token.GTR:
+			return ba, true
+		case token.LEQ:
+			return Not(ba), true
+		case token.GEQ:
+			return Not(ab), true
+		}
+	case isFloatType(t) && (op == token.LSS || op == token.GTR):
+		a, b := e.box(l), e.box(r)
+		ab, ba := App("flt", SBool, a, b), App("flt", SBool, b, a)
+		e.assume(Implies(And(App("feq", SBool, a, a), App("feq", SBool, b, b), Not(ab), Not(ba)), App("feq", SBool, a, b)))
+		e.assume(Not(And(ab, ba)))
+		if op == token.LSS {
+			return ab, true
+		}
+		return ba, true
+	}
+	return nil, false
 }
